@@ -76,7 +76,7 @@ def h_object(i: int, env: int) -> bool:
 
 def h_seq(kind: int, nmax: int, n: int, a: int, b: int, c: int, env: int) -> bool:
     """
-    pre: 0 <= kind <= 2 and 0 <= n <= nmax <= 3 and 0 <= a < 26 and 0 <= b < 26 and 0 <= c < 26 and 0 <= env <= 2
+    pre: 0 <= kind <= 2 and 0 <= n <= nmax <= 3 and 0 <= a < 28 and 0 <= b < 28 and 0 <= c < 28 and 0 <= env <= 2
     pre: (n >= 1 or a == 0) and (n >= 2 or b == 0) and (n >= 3 or c == 0)
     post: _
     """
@@ -99,7 +99,7 @@ def h_seq(kind: int, nmax: int, n: int, a: int, b: int, c: int, env: int) -> boo
 
 def h_dict(n: int, k0: int, v0: int, k1: int, v1: int, env: int) -> bool:
     """
-    pre: 0 <= n <= 2 and 0 <= k0 < 10 and 0 <= v0 < 26 and 0 <= k1 < 10 and 0 <= v1 < 26 and 0 <= env <= 2
+    pre: 0 <= n <= 2 and 0 <= k0 < 11 and 0 <= v0 < 28 and 0 <= k1 < 11 and 0 <= v1 < 28 and 0 <= env <= 2
     pre: (n >= 1 or (k0 == 0 and v0 == 0)) and (n >= 2 or (k1 == 0 and v1 == 0))
     post: _
     """
